@@ -12,7 +12,7 @@ class Contract(object):
                  modifies=(), invariants=None, inline=False, on_raise=None, raises_when=None,
                  may_raise_app=True, ghost=None, self_cls=None, trusted=False, external=False,
                  note=None, props=(), generator=False, pure=True, loop_bounds=None, carries=(),
-                 ensures_fn=None, defaults=None, post_names=None, variants=None, definitions=None, unfold_depth=1, comprehensions=None, abstract_nonlinear=False, bounded_lists=None, instantiate_int_foralls=False, names_result=None, robust_when=None, may_raise=None):
+                 ensures_fn=None, defaults=None, post_names=None, variants=None, definitions=None, unfold_depth=1, comprehensions=None, abstract_nonlinear=False, bounded_lists=None, instantiate_int_foralls=False, names_result=None, robust_when=None, may_raise=None, raises_classes=None):
         self.file, self.qualname = file, qualname
         self.params = OrderedDict(params or [])
         self.requires = requires or (lambda v: [])
@@ -36,6 +36,7 @@ class Contract(object):
         self.abstract_nonlinear = abstract_nonlinear
         self.instantiate_int_foralls = instantiate_int_foralls
         self.robust_bound = None
+        self.raises_classes = raises_classes   # exception classes that may leave the function (verified in its own proof: every raise path has one of them)
         self.may_raise = may_raise         # lambda v: [(exception class, condition)] — exceptional exits of an assumed (external) contract
         self.robust_when = robust_when     # lambda v: [hypotheses] under which int() of a computed float must not depend on last-bit rounding
         self.names_result = names_result   # lambda v, res: [equalities naming the result of a pure deterministic function by a spec function] — assumed at call sites only (definitional)
